@@ -71,6 +71,7 @@ func cmdVerify(args []string) int {
 	}
 	fmt.Printf("loaded in %.1fs\n", p.LoadSecs)
 	bad := 0
+	setTransparent(p, rel)
 	for _, name := range rest[1:] {
 		x := sym.NewExec(p.Prog, p.Specs)
 		t0 := time.Now()
@@ -152,4 +153,14 @@ func cmdVerify(args []string) int {
 		return 1
 	}
 	return 0
+}
+
+// setTransparent applies the "package transparent P..." directive of the package under verification.
+func setTransparent(p *load.Program, rel string) {
+	sym.TransparentPkgs = map[string]bool{}
+	if db := p.Specs[load.ModulePath+"/"+rel]; db != nil {
+		for _, t := range db.Transparent {
+			sym.TransparentPkgs[t] = true
+		}
+	}
 }
